@@ -86,6 +86,8 @@ func fold(c Case, order []int) []string {
 		val := valNames[it.Val]
 		switch it.Type {
 		case 0:
+			// (for the empty value the list readers are compared with empty strings dropped,
+			// and the single-value reader may answer "" either way: see noEmpty / normSet)
 			v = append(v[:0:0], val)
 		case 1:
 			v = append(v, val)
@@ -145,4 +147,40 @@ func (c Case) modtime(h hyp) int {
 		}
 	}
 	return m
+}
+
+// noEmpty drops empty strings from an observed value list: after set-attribute
+// with an empty value the readers may say "no value" or "one empty value";
+// the documents do not distinguish the two.
+func noEmpty(got []string) []string {
+	var out []string
+	for _, g := range got {
+		if g != "" {
+			out = append(out, g)
+		}
+	}
+	return out
+}
+
+// normSet maps every allowed value list to itself without empty strings.
+func normSet(m map[string]bool) map[string]bool {
+	o := map[string]bool{}
+	for k := range m {
+		if k == "" {
+			o[k] = true
+			continue
+		}
+		o[strings.Join(noEmpty(strings.Split(k, sep)), sep)] = true
+	}
+	return o
+}
+
+// firstsEither: what the single-value reader may answer: the first value of an
+// allowed list, with or without its empty strings.
+func firstsEither(m map[string]bool) map[string]bool {
+	o := firsts(m)
+	for k := range firsts(normSet(m)) {
+		o[k] = true
+	}
+	return o
 }
